@@ -213,7 +213,16 @@ func (p *parser) primary() SExpr {
 			q := SQuant{Forall: t.s == "forall"}
 			for {
 				q.Vars = append(q.Vars, p.next().s)
-				q.Types = append(q.Types, p.next().s)
+				ty := ""
+				if p.accept("*") {
+					ty = "*"
+				}
+				ty += p.next().s
+				if p.peek().kind == "op" && p.peek().s == "." {
+					p.next()
+					ty += "." + p.next().s
+				}
+				q.Types = append(q.Types, ty)
 				if !p.accept(",") {
 					break
 				}
